@@ -11,6 +11,7 @@ import numpy as np
 
 from tflv import core
 from tflv import findings
+from tflv import modes
 from tflv import monitors
 from tflv.gen import lattice as gen
 from tflv.oracles import lattice as ol
@@ -173,7 +174,8 @@ def gen_cases(ctx):
       else:
         w = None  # built in run_case from the seed below (keeps replay exact: stored after build)
       yield {"kind": entry, "cfg": cfg, "mode": mode, "kclass": kclass, "w": w,
-             "kseed": int(rng.randint(2**31 - 1)), "labels": labels}
+             "kseed": int(rng.randint(2**31 - 1)), "labels": labels,
+             "exec": modes.pick(rng, (0.7, 0.3, 0.0), allow=("eager", "graph"))}
       i += 1
 
 
@@ -203,6 +205,8 @@ def run_case(ctx, case):
   kind = case["kind"]
   ctx.cls(*case.get("labels", []))
   ctx.cls("entry:" + kind, "mode:" + case["mode"], "kernel:" + str(case.get("kclass") or case["mode"]))
+  ex = case.get("exec", "eager")
+  ctx.cls("exec:" + ex)
   strict_in, every_in = input_violation(cfg, w)
   scale_in = core.scale_of(w)
   feasible_in = every_in <= 1e-6 * scale_in
@@ -211,23 +215,23 @@ def run_case(ctx, case):
 
   if kind == "constraint":
     c = ll.LatticeConstraints(num_projection_iterations=cfg["iters"], **kw)
-    out = c(tf.constant(w)).numpy()
+    out = modes.call(tf, ex, c, tf.constant(w)).numpy()
     site = "LatticeConstraints.__call__"
     judge(ctx, site, cfg, w, out, check_bounds="exact")
     # idempotence on outputs the oracle judges feasible for every family
     s2, e2 = input_violation(cfg, out)
     if e2 <= 1e-6 * core.scale_of(out):
-      out2 = c(tf.constant(out)).numpy()
+      out2 = modes.call(tf, ex, c, tf.constant(out)).numpy()
       d = float(np.max(np.abs(out2.astype(np.float64) - out)))
       t = 1e-4 * core.scale_of(out)
       ctx.check("feasible-unchanged", d <= t,
                 "constraint moved its own feasible output by %.3g (tol %.3g)" % (d, t),
                 info={"entry": site, "moved": d}, ratio=d / t)
   elif kind == "lib_finalize":
-    out = lib.finalize_constraints(
-        tf.constant(w), lattice_sizes=kw["lattice_sizes"], monotonicities=kw["monotonicities"],
+    out = modes.call(tf, ex, lambda t: lib.finalize_constraints(
+        t, lattice_sizes=kw["lattice_sizes"], monotonicities=kw["monotonicities"],
         edgeworth_trusts=kw["edgeworth_trusts"], trapezoid_trusts=kw["trapezoid_trusts"],
-        output_min=kw["output_min"], output_max=kw["output_max"]).numpy()
+        output_min=kw["output_min"], output_max=kw["output_max"]), tf.constant(w)).numpy()
     site = "lattice_lib.finalize_constraints"
     judge(ctx, site, cfg, w, out, check_bounds=None)
   else:
@@ -251,4 +255,4 @@ def run_case(ctx, case):
               info={"entry": site, "moved": d, "input_violation": every_in}, ratio=d / t)
   work = strict_in > core.REL_TOL * scale_in
   nontrivial = (has_strict or has_bounds) and (work or feasible_in)
-  return nontrivial, core.digest([cfg, kind, core.arr_digest(w)])
+  return nontrivial, core.digest([cfg, kind, ex, core.arr_digest(w)])
